@@ -4,7 +4,8 @@
      code 2 = the implementation's observable violates the property predicate (the spec_C17 predicates). *)
 From Coq Require Import List NArith Bool Arith.
 Import ListNotations.
-From AnySync Require Export Model.Trie Model.PubSub.
+From Coq Require Import ZArith.
+From AnySync Require Export Model.Trie Model.PubSub Model.PubSubClient.
 
 Inductive case :=
 (* one string through splitTopic / ValidateTopic / ValidatePattern / TopicOwner *)
@@ -12,7 +13,14 @@ Inductive case :=
 (* a history on a fresh patternTrie with everything it returned *)
 | CTrie (ops : list top) (obs : list tobs)
 (* an event history on a fresh real pubsub service (node role) with fake streams, and what was observed *)
-| CSvc (c : cfg) (evs : list ev) (obs : list out).
+| CSvc (c : cfg) (evs : list ev) (obs : list out)
+(* an event history on a fresh real pubsub service in CLIENT role (local handlers, Publish frames fed through
+   the stream read loop, own Publish) and what was observed per event *)
+| CClient (c : ccfg) (evs : list cev) (obs : list cobs)
+(* the bytes publishSignData produced for these field values *)
+| CSign (space topic id key : str) (ts : Z) (payload : str) (bytes : list N)
+(* a fresh msgIdDedup of [size] slots, the ids passed to seen() in order, and what it returned *)
+| CDedup (size : N) (ids : list str) (res : list bool).
 
 Fixpoint strs_eqb (a b : list str) : bool :=
   match a, b with
@@ -77,6 +85,54 @@ Fixpoint outs_eqb (a b : list out) : bool :=
   | _, _ => false
   end.
 
+(* handler invocations are compared as multisets (Go map iteration decides the order inside one level) *)
+Definition ms_eq (a b : list str) : bool :=
+  len_eq a b && forallb (fun x => Nat.eqb (str_count x a) (str_count x b)) a.
+
+Definition optN_eqb (a b : option N) : bool :=
+  match a, b with Some x, Some y => N.eqb x y | None, None => true | _, _ => false end.
+
+Definition cobs_eqb (a b : cobs) : bool :=
+  match a, b with
+  | ONoneC, ONoneC => true
+  | OSubR x, OSubR y => Bool.eqb x y
+  | ORecv s1 i1, ORecv s2 i2 => optN_eqb s1 s2 && ms_eq i1 i2
+  | OPubR o1 i1, OPubR o2 i2 => Bool.eqb o1 o2 && ms_eq i1 i2
+  | _, _ => false
+  end.
+
+Fixpoint cobss_eqb (a b : list cobs) : bool :=
+  match a, b with
+  | [], [] => true
+  | x :: a', y :: b' => cobs_eqb x y && cobss_eqb a' b'
+  | _, _ => false
+  end.
+
+Fixpoint dedup_run (r : ring) (ids : list str) : list bool :=
+  match ids with
+  | [] => []
+  | id :: rest => let '(r', b) := seen r id in b :: dedup_run r' rest
+  end.
+
+Fixpoint bools_eqb (a b : list bool) : bool :=
+  match a, b with
+  | [], [] => true
+  | x :: a', y :: b' => Bool.eqb x y && bools_eqb a' b'
+  | _, _ => false
+  end.
+
+(* what the ring must answer, stated without the ring: an id is reported iff it is a 16-byte id among the
+   last [size] recorded ones; the recorded ids are those that were not reported *)
+Fixpoint spec_dedup (size : nat) (rec : list str) (ids : list str) (res : list bool) : bool :=
+  match ids, res with
+  | [], [] => true
+  | id :: ri, b :: rb =>
+      let want := Nat.eqb (length id) msg_id_len && mem_str id (lastn size rec) in
+      Bool.eqb b want
+      && spec_dedup size (if Nat.eqb (length id) msg_id_len && negb want then rec ++ [id] else rec) ri rb
+  | _, _ => false
+  end.
+
 Definition model_ok (c : case) : bool :=
   match c with
   | CValid s segs tok pok owner =>
@@ -84,6 +140,9 @@ Definition model_ok (c : case) : bool :=
       && Bool.eqb (validate_pattern s) pok && str_eqb (topic_owner s) owner
   | CTrie ops obs => obs_eqb (trie_run trie_empty ops) obs
   | CSvc c evs obs => outs_eqb (svc_run c svc_init evs) obs
+  | CClient c evs obs => cobss_eqb (client_run c (cinit c) evs) obs
+  | CSign space topic id key ts payload bytes => str_eqb (sign_data_of space topic id key ts payload) bytes
+  | CDedup size ids res => bools_eqb (dedup_run (ring_new (N.to_nat size)) ids) res
   end.
 
 Definition spec_ok (c : case) : bool :=
@@ -91,6 +150,9 @@ Definition spec_ok (c : case) : bool :=
   | CValid s _ tok pok _ => spec_C17_validate s tok pok
   | CTrie ops obs => spec_C17_trie ops obs
   | CSvc c evs obs => spec_C17_svc c evs obs
+  | CClient c evs obs => spec_C17_client c evs obs
+  | CSign _ _ _ _ _ _ _ => true
+  | CDedup size ids res => spec_dedup (N.to_nat size) [] ids res
   end.
 
 Fixpoint check_from (i : N) (l : list case) : list (N * N) :=
